@@ -174,7 +174,8 @@ class _PokTranslator(_util.OverrideableDataDesc):
         if missing:
             raise TypeError('{0}() is missing the following required '
                             'keyword-only arguments: {1}'.format(
-                            self.func.__name__, ', '.join(missing)))
+                            getattr(self.func, '__name__', repr(self.func)),
+                            ', '.join(missing)))
         return self.func(*args, **kwargs)
 
     def parameters(self):
